@@ -56,6 +56,9 @@ func TestC03(t *testing.T) {
 	for i := 0; i < r.Pick(12, 400); i++ {
 		cases = append(cases, mon.CaseSpec{Name: "openctx", Spec: c03Spec{Mode: "openctx", NOps: i}})
 	}
+	for i := 0; i < r.Pick(16, 400); i++ {
+		cases = append(cases, mon.CaseSpec{Name: "ended", Spec: c03Spec{Mode: "ended", NCtx: 1 + (i/2)%3, NPipes: 1, Abandon: []string{"nopeers", "timeout-then-cancel"}[i%2]}})
+	}
 	for i := 0; i < r.Pick(12, 400); i++ {
 		cases = append(cases, mon.CaseSpec{Name: "replyrace", Spec: c03Spec{Mode: "replyrace", NCtx: 1 + i%2, NPipes: 1, NOps: 250}})
 	}
@@ -64,6 +67,8 @@ func TestC03(t *testing.T) {
 		switch sp.Mode {
 		case "replyrace":
 			c03ReplyRace(c, sp)
+		case "ended":
+			c03Ended(c, sp)
 		case "seq":
 			c03Seq(c, sp)
 		case "parked":
